@@ -424,5 +424,38 @@ func init() {
 		// the CID text form is a cache key in the announce receiver: one model for
 		// concrete and symbolic CIDs alike, so that equal CIDs have equal text
 		symbolicOnly("(github.com/ipfs/go-cid.Cid).String", "cid-", true)
+		// cid.Decode (and Parse of a string) is the inverse of the text model
+		p.reg("github.com/ipfs/go-cid.Decode", func(ex *Exec, fr *Frame, args []Value) Value {
+			bs := strBytes(args[0])
+			pre := "cid-"
+			if len(bs) < len(pre) || (len(bs)-len(pre))%2 != 0 {
+				return fallThrough{}
+			}
+			for i := range pre {
+				if !bs[i].IsConst() || byte(bs[i].val) != pre[i] {
+					return fallThrough{}
+				}
+			}
+			bad := func() Value {
+				ct := ex.p.namedType("github.com/ipfs/go-cid", "Cid")
+				return Tuple{zero(ct), ex.newErrorString("model: invalid cid text")}
+			}
+			var raw []*Term
+			for i := len(pre); i < len(bs); i += 2 {
+				var nib [2]*Term
+				for j := 0; j < 2; j++ {
+					c := bs[i+j]
+					isDigit := mkAnd(mkCmp(OpULe, byteConst('0'), c), mkCmp(OpULe, c, byteConst('9')))
+					isAF := mkAnd(mkCmp(OpULe, byteConst('a'), c), mkCmp(OpULe, c, byteConst('f')))
+					if !ex.branch(mkOr(isDigit, isAF), "cid-decode-hex") {
+						return bad()
+					}
+					nib[j] = mkIte(isDigit, mkBin(OpSub, c, byteConst('0')), mkBin(OpSub, c, byteConst('a'-10)))
+				}
+				raw = append(raw, mkBin(OpBOr, mkBin(OpShl, nib[0], byteConst(4)), nib[1]))
+			}
+			f := ex.p.funcByName("github.com/ipfs/go-cid", "Cast")
+			return ex.callSSA(fr, fr.callPos, f, []Value{termsToValues(raw)}, nil)
+		})
 	})
 }
